@@ -124,7 +124,13 @@ def head_mutations(rng):
                 (f"redirect-{st.decode()}-long-label", base + b"Location: ws://" + b"x" * 64 + b".test/\r\n\r\n"),
                 (f"redirect-{st.decode()}-dot-host", base + b"Location: ws://./\r\n\r\n"),
                 (f"redirect-{st.decode()}-nonascii-host", base + "Location: ws://b\u00fccher.test/\r\n\r\n".encode()),
-                (f"redirect-{st.decode()}-long-name", base + b"Location: ws://" + b".".join([b"a" * 60] * 5) + b"/\r\n\r\n")]
+                (f"redirect-{st.decode()}-long-name", base + b"Location: ws://" + b".".join([b"a" * 60] * 5) + b"/\r\n\r\n"),
+                # non-ASCII names that the idna codec cannot encode (empty label, over-long label, leading dot): wherever the name is
+                # encoded - by the resolver, or for a CONNECT request behind an HTTP proxy - the failure is an address / proxy error
+                (f"redirect-{st.decode()}-idn-empty-label", base + "Location: ws://m\u00fcnchen..example.test/\r\n\r\n".encode()),
+                (f"redirect-{st.decode()}-idn-long-label", base + ("Location: ws://" + "\u00fc" * 70 + ".test/\r\n\r\n").encode()),
+                (f"redirect-{st.decode()}-idn-leading-dot", base + "Location: ws://.\u00fc.test/\r\n\r\n".encode()),
+                (f"redirect-{st.decode()}-idn-wss", base + "Location: wss://m\u00fcnchen..example.test/\r\n\r\n".encode())]
     # every single byte inside, before and after the host of a redirect target (NUL and other control characters, blanks, '%', '@',
     # '\\', 8-bit bytes): the name travels through the no_proxy matching and the resolver of the follow-up connection
     base = b"HTTP/1.1 302 Moved\r\n"
@@ -195,6 +201,9 @@ def run(res, tier, seed, shard, nshards):
                 proxy_reply_case(res, W, rng)
             else:
                 declared_pairs(res, W, rng, job[1])
+        for i in range(4 * len(REDIRECT_HOSTS)):
+            if i % nshards == shard:
+                proxied_redirect_case(res, W, rng, i)
 
     with H.ambient((seed, shard, "C17"), res, dims=("multithread", "tls", "dispatcher", "high_fd", "warn_error", "thread_hop", "truthy")):
         H.in_sim(scen, watchdog=3000)
@@ -238,6 +247,48 @@ PROXY_HEADERS = ["Proxy-Authenticate: Basic realm=\"proxy\"", "Proxy-Authenticat
                  "Proxy-Authenticate: =", "Proxy-Authenticate:  \t ", "Proxy-Connection: close", "Connection: close", "Content-Length: 0", "Content-Length: abc",
                  "Content-Length: 99999999999", "Via: 1.1 proxy", "X-Long: " + "v" * 70000, "NoColonHere", ": empty-name", "Proxy-Authenticate: Bas\xe9c", "Retry-After: \xb2",
                  "Location: ws://elsewhere.test/", "Set-Cookie: a=1; Domain=example.com; Max-Age=soon"]
+
+
+REDIRECT_HOSTS = ["a..b", "m\u00fcnchen..example.test", "x" * 64 + ".test", "\u00fc" * 70 + ".test", ".a", ".", "a.", "b\u00fccher.test", "a\x00b", "a b", "[::1", "::1]", "%41.test",
+                  "a" * 300 + ".test", "xn--.test", "xn--a.test", "-a.test", "a_b.test", "1.2.3.4.", "0x7f.1"]
+
+
+def proxied_redirect_case(res, W, rng, i):
+    """Behind an HTTP proxy that grants every CONNECT the client never resolves a name itself: a redirect to a host name that cannot be
+    encoded (for the CONNECT line, for the TLS server name) must still end in a documented exception, for ws and for wss targets."""
+    H.reset_process_state()
+    host = REDIRECT_HOSTS[i % len(REDIRECT_HOSTS)]
+    scheme = ["ws", "wss"][(i // len(REDIRECT_HOSTS)) % 2]
+    first_secure = (i // (2 * len(REDIRECT_HOSTS))) % 2 == 1
+    loc = f"{scheme}://{host}/r".encode("utf-8")
+    n = [0]
+    conns = []
+
+    def inner(c):
+        n[0] += 1
+        if n[0] == 1:
+            return H.HandshakePeer(c, response=lambda req: b"HTTP/1.1 302 Found\r\nLocation: " + loc + b"\r\n\r\n")
+        return H.HandshakePeer(c)
+    net_ = H.make_net()
+    net_.add_host("proxy.test", ["203.0.113.9"])
+    net_.listen("203.0.113.9", 3128, ("accept", lambda c: (conns.append(c), H.TunnelPeer(c, inner_factory=inner))))
+    case = {"phase": "handshake", "label": "redirect-behind-proxy", "location": loc, "first_url_secure": first_secure}
+    res.count("proxied_redirect_cases")
+    res.case(("PR", loc, first_secure), nontrivial=True)
+    w = None
+    try:
+        w = W.create_connection(("wss" if first_secure else "ws") + "://origin.test/p", timeout=2, http_proxy_host="proxy.test", http_proxy_port=3128,
+                                sslopt={"cert_reqs": 0, "check_hostname": False})
+        res.count("handshake_connected")
+    except BaseException as e:  # noqa
+        if isinstance(e, (KeyboardInterrupt, sched.SimAbort)):
+            raise
+        record_exception(res, W, e, "handshake", "redirect-behind-proxy:" + scheme, case, conns[0] if conns else None)
+    if w is not None:
+        try:
+            w.shutdown()
+        except Exception:  # noqa
+            pass
 
 
 def proxy_reply_case(res, W, rng):
